@@ -112,6 +112,7 @@ func (f *Feed) remove(sub *feedSub) {
 		return
 	}
 	f.mu.Unlock()
+	verifYield(4)
 
 	select {
 	case f.removeSub <- ch:
@@ -119,6 +120,7 @@ func (f *Feed) remove(sub *feedSub) {
 	case <-f.sendLock:
 		// No Send is in progress, delete the channel now that we have the send lock.
 		f.sendCases = f.sendCases.delete(f.sendCases.find(ch))
+		verifYield(5)
 		f.sendLock <- struct{}{}
 	}
 }
@@ -130,6 +132,7 @@ func (f *Feed) Send(value interface{}) (nsent int) {
 
 	f.once.Do(f.init)
 	<-f.sendLock
+	verifYield(1)
 
 	// Add new cases from the inbox after taking the send lock.
 	f.mu.Lock()
@@ -141,6 +144,7 @@ func (f *Feed) Send(value interface{}) (nsent int) {
 		panic(feedTypeError{op: "Send", got: rvalue.Type(), want: f.etype})
 	}
 	f.mu.Unlock()
+	verifYield(2)
 
 	// Set the sent value on all channels.
 	for i := firstSubSendCase; i < len(f.sendCases); i++ {
@@ -164,6 +168,7 @@ func (f *Feed) Send(value interface{}) (nsent int) {
 			break
 		}
 		// Select on all the receivers, waiting for them to unblock.
+		verifYield(3)
 		chosen, recv, _ := reflect.Select(cases)
 		if chosen == 0 /* <-f.removeSub */ {
 			index := f.sendCases.find(recv.Interface())
